@@ -2683,7 +2683,7 @@ def _int_or_vec(f, arg, argname, nargs, nvals):
         arg = numpy.unique(arg)
         if arg[0] < 0 or arg[-1] >= nargs:
             raise IndexError('{} out of bounds'.format(argname))
-        return functools.reduce(numpy.union1d, map(f, arg))
+        return numpy.unique(numpy.concatenate(list(map(f, arg))))
     raise IndexError('invalid {}'.format(argname))
 
 
